@@ -2,15 +2,27 @@ package main
 
 import (
 	"bytes"
+	"encoding/base64"
 	"fmt"
 	"math"
 	"sort"
 	"strconv"
 	"strings"
 
+	"github.com/lyraproj/pcore/px"
+	"github.com/lyraproj/pcore/types"
 	"github.com/lyraproj/pcore/utils"
 	"verifharness/lib"
 )
+
+func safeAssignable(a, b px.Type) (r bool) {
+	defer func() {
+		if recover() != nil {
+			r = false
+		}
+	}()
+	return px.IsAssignable(a, b)
+}
 
 // The emitter writes the cases for the model (M): value, specification, oracle tables, observed
 // outcome. Oracle tables carry the results of library code that is modelled rather than verified:
@@ -31,7 +43,7 @@ func newCases() *lib.CasesFile {
 }
 
 func newEmitter(cfg *lib.Config) *emitter {
-	e := &emitter{cfg: cfg, perFile: 700}
+	e := &emitter{cfg: cfg, perFile: 400}
 	e.radix = &lib.CasesFile{Imports: []string{"Model.Base", "Model.Format", "Corr.CorrC20"}, Typ: "rcase",
 		Obligations: map[string]string{"radix_model": "radix_mismatches cases"}}
 	return e
@@ -75,6 +87,7 @@ type oracle struct {
 	fdig   map[string]string // key: bits/verb/prec
 	i2f    map[int64]uint64
 	f2i    map[uint64]int64
+	self   map[string]bool // key: Gallina text of a nested container value (directive-string specs only)
 }
 
 func specPrecs(s Spec) []int {
@@ -102,6 +115,9 @@ func specPrecs(s Spec) []int {
 	out := []int{}
 	for p := range ps {
 		out = append(out, p)
+		if p > 0 && !ps[p-1] {
+			out = append(out, p-1) // %g forced into scientific notation uses %e with one digit less (floattype.go:359)
+		}
 	}
 	sort.Ints(out)
 	return out
@@ -134,8 +150,27 @@ func specHasFloatLetter(s Spec) bool {
 
 func buildOracle(v Val, s Spec) *oracle {
 	o := &oracle{quote: map[string]string{}, rquote: map[string]string{}, cases: map[string]string{}, fdig: map[string]string{},
-		i2f: map[int64]uint64{}, f2i: map[uint64]int64{}}
+		i2f: map[int64]uint64{}, f2i: map[uint64]int64{}, self: map[string]bool{}}
 	precs := specPrecs(s)
+	if s.Kind == "str" && v.isContainer() {
+		// the context of a directive string has one key, the inferred type of the top value; which nested
+		// containers that type accepts is type inference + assignability (properties C01/C04): oracle
+		topT := v.px().PType()
+		v.walk(func(x Val) {
+			if !x.isContainer() {
+				return
+			}
+			o.self[x.gallina()] = safeAssignable(topT, x.px().PType())
+			if x.K == "hash" {
+				// Hash under %a renders as the array of its entries (hashtype.go:1243)
+				es := make([]string, len(x.Es))
+				for i := range x.Es {
+					es[i] = "(VArr [(" + x.Ks[i].gallina() + "); (" + x.Es[i].gallina() + ")])"
+				}
+				o.self["VArr "+lib.GList(es, "value")] = safeAssignable(topT, types.WrapArray3(x.px().(*types.Hash)).PType())
+			}
+		})
+	}
 	floatLetters := specHasFloatLetter(s)
 	addQ := func(x string) {
 		if !isPlain(x) {
@@ -144,7 +179,7 @@ func buildOracle(v Val, s Spec) *oracle {
 	}
 	addFloat := func(f float64) {
 		bits := math.Float64bits(f)
-		for _, verb := range []byte("eEfgG") {
+		for _, verb := range []byte("eEfgGxX") {
 			for _, p := range precs {
 				if p > 40 {
 					continue
@@ -188,7 +223,13 @@ func buildOracle(v Val, s Spec) *oracle {
 			o.f2i[math.Float64bits(f)] = int64(f)
 			addFloat(f)
 		case "bin":
+			// with '#' the text chosen by the format character is quoted (binarytype.go:288)
+			raw := []byte(x.bytes())
 			addQ(x.bytes())
+			std := base64.StdEncoding.EncodeToString(raw)
+			for _, y := range []string{"Binary('" + std + "')", std + "\n", std, base64.URLEncoding.EncodeToString(raw), "Binary", "BINARY"} {
+				addQ(y)
+			}
 		case "re":
 			o.rquote[x.bytes()] = regexpQuote(x.bytes())
 		}
@@ -238,8 +279,17 @@ func (o *oracle) gallina() string {
 	for _, k := range fk {
 		f2i = append(f2i, lib.GPair(fmt.Sprintf("(%d)%%Z", k), lib.GZ(o.f2i[k])))
 	}
-	return fmt.Sprintf("(mkOracle %s %s %s %s %s %s)", lib.GList(q, "str * str"), lib.GList(rq, "str * str"), lib.GList(cs, "(N * str) * str"),
-		lib.GList(fd, "(Z * N * Z) * str"), lib.GList(i2f, "Z * Z"), lib.GList(f2i, "Z * Z"))
+	var self []string
+	sk := make([]string, 0, len(o.self))
+	for k := range o.self {
+		sk = append(sk, k)
+	}
+	sort.Strings(sk)
+	for _, k := range sk {
+		self = append(self, lib.GPair("("+k+")", lib.GBool(o.self[k])))
+	}
+	return fmt.Sprintf("(mkOracle %s %s %s %s %s %s %s)", lib.GList(q, "str * str"), lib.GList(rq, "str * str"), lib.GList(cs, "(N * str) * str"),
+		lib.GList(fd, "(Z * N * Z) * str"), lib.GList(i2f, "Z * Z"), lib.GList(f2i, "Z * Z"), lib.GList(self, "value * bool"))
 }
 
 func (e *emitter) add(v Val, s Spec, o Obs) {
@@ -262,9 +312,33 @@ func (e *emitter) addRadix(c radixCase, text string, back int64, errText string)
 	e.radix.Add(fmt.Sprintf("mkRCase %s %s %s %s %s", lib.GZ(c.N), lib.GStr(c.D), lib.GZ(c.Radix), lib.GStr(text), res), c)
 }
 
+// keysFile ties the model's key tables (key_sub, key_accepts) to px.IsAssignable on every run.
+func keysFile(vals []Val) *lib.CasesFile {
+	cf := &lib.CasesFile{Imports: []string{"Model.Base", "Model.Format", "Corr.CorrC20"}, Typ: "kcase",
+		Obligations: map[string]string{"keys_model": "keys_mismatches cases"}}
+	for _, a := range keyTypes {
+		for _, b := range keyTypes {
+			cf.Add(fmt.Sprintf("KSub K%s K%s %s", a, b, lib.GBool(safeAssignable(keyType(a), keyType(b)))),
+				map[string]string{"kind": "key-sub", "a": a, "b": b})
+		}
+	}
+	for _, v := range vals {
+		pt := v.px().PType()
+		for _, k := range keyTypes {
+			cf.Add(fmt.Sprintf("KAcc K%s (%s) %s", k, v.gallina(), lib.GBool(safeAssignable(keyType(k), pt))),
+				map[string]interface{}{"kind": "key-accepts", "key": k, "value": v})
+		}
+	}
+	return cf
+}
+
 func (e *emitter) flush(res *lib.Result) {
 	if emitDisabled {
 		return
+	}
+	if e.cfg.Replay == "" {
+		vals := append(scalarPool(), containerPool()...)
+		res.CorrFiles = append(res.CorrFiles, keysFile(vals).WriteTo(e.cfg.Out, "cases_keys"))
 	}
 	for i, cf := range e.files {
 		res.CorrFiles = append(res.CorrFiles, cf.WriteTo(e.cfg.Out, fmt.Sprintf("cases_format_%d", i)))
